@@ -875,7 +875,9 @@ func (se *SpecEnv) quantSort(kind string, x *ast.CallExpr) (Val, error) {
 	case *types.Pointer, *types.Map, *types.Chan:
 		rng = "(<= 0 " + m + ")"
 	case *types.Basic:
-		rng = intRange(t, m)
+		if b := t.Underlying().(*types.Basic); b.Kind() != types.Int && b.Kind() != types.Int64 {
+			rng = intRange(t, m) // int / int64 are mathematical integers in specifications
+		}
 	}
 	k := "forall"
 	if kind == "existsv" {
